@@ -14,6 +14,58 @@ use std::time::{Duration, SystemTime, UNIX_EPOCH};
 
 pub type BoxError = Box<dyn std::error::Error + Send + Sync>;
 
+/// The entity's `Data` type: a non-contiguous buffer of one or more segments (the crate
+/// documents that `Data` "may be something more exotic" than `Bytes`; only `Buf` is required).
+#[derive(Clone, Debug, Default)]
+pub struct SegBytes {
+    segs: std::collections::VecDeque<Bytes>,
+}
+
+impl SegBytes {
+    pub fn from_segments(v: Vec<Vec<u8>>) -> SegBytes {
+        SegBytes {
+            segs: v.into_iter().filter(|s| !s.is_empty()).map(Bytes::from).collect(),
+        }
+    }
+    pub fn segments(&self) -> usize {
+        self.segs.len()
+    }
+}
+
+impl bytes::Buf for SegBytes {
+    fn remaining(&self) -> usize {
+        self.segs.iter().map(|s| s.len()).sum()
+    }
+    fn chunk(&self) -> &[u8] {
+        self.segs.front().map(|s| &s[..]).unwrap_or(&[])
+    }
+    fn advance(&mut self, mut n: usize) {
+        while n > 0 {
+            let Some(f) = self.segs.front_mut() else { panic!("advance past the end of SegBytes") };
+            if n < f.len() {
+                bytes::Buf::advance(f, n);
+                return;
+            }
+            n -= f.len();
+            self.segs.pop_front();
+        }
+    }
+}
+
+impl From<Vec<u8>> for SegBytes {
+    fn from(v: Vec<u8>) -> Self {
+        SegBytes::from_segments(vec![v])
+    }
+}
+
+impl From<&'static [u8]> for SegBytes {
+    fn from(v: &'static [u8]) -> Self {
+        SegBytes {
+            segs: if v.is_empty() { Default::default() } else { [Bytes::from_static(v)].into_iter().collect() },
+        }
+    }
+}
+
 #[derive(Clone, Debug, PartialEq, Eq)]
 pub enum HarnessError {
     /// An error injected by the harness entity (id identifies the fault).
@@ -63,6 +115,9 @@ pub struct Fault {
     /// happens; ignored for ExtraChunk (always after the last chunk).
     pub chunk: u32,
     pub kind: FaultKind,
+    /// number of surplus bytes for ExtraByte (0 = 1)
+    #[serde(default)]
+    pub extra: u32,
 }
 
 #[derive(Clone, Debug, Serialize, Deserialize)]
@@ -78,6 +133,10 @@ pub struct EntitySpec {
     /// before its end (or its after-the-end fault).
     #[serde(default)]
     pub tail: Vec<PStep>,
+    /// Every data chunk is handed over as up to this many segments (0/1 = contiguous). Surplus
+    /// bytes of an ExtraByte fault always sit in a segment of their own when this is >= 2.
+    #[serde(default)]
+    pub segments: u8,
 }
 
 impl EntitySpec {
@@ -90,6 +149,7 @@ impl EntitySpec {
             plan: vec![PStep::Rest],
             faults: vec![],
             tail: vec![],
+            segments: 0,
         }
     }
     pub fn etag_is_strong(&self) -> bool {
@@ -150,7 +210,7 @@ struct PlanStream {
 }
 
 impl Stream for PlanStream {
-    type Item = Result<Bytes, HarnessError>;
+    type Item = Result<SegBytes, HarnessError>;
 
     fn poll_next(self: Pin<&mut Self>, cx: &mut Context<'_>) -> Poll<Option<Self::Item>> {
         let this = Pin::into_inner(self);
@@ -196,7 +256,7 @@ impl Stream for PlanStream {
                             cx.waker().wake_by_ref();
                             return Poll::Pending;
                         }
-                        _ => return Poll::Ready(Some(Ok(Bytes::new()))),
+                        _ => return Poll::Ready(Some(Ok(SegBytes::default()))),
                     }
                 }
                 if let Some(f) = this.fault {
@@ -208,7 +268,7 @@ impl Stream for PlanStream {
                     if f.kind == FaultKind::ExtraChunk && !this.extra_chunk_done {
                         this.extra_chunk_done = true;
                         this.log.lock().unwrap().faults_reached.push(f);
-                        return Poll::Ready(Some(Ok(Bytes::from_static(&[0xEE, 0xEE, 0xEE]))));
+                        return Poll::Ready(Some(Ok(SegBytes::from(&[0xEEu8, 0xEE, 0xEE][..]))));
                     }
                 }
                 this.done = true;
@@ -227,27 +287,51 @@ impl Stream for PlanStream {
                     cx.waker().wake_by_ref();
                     return Poll::Pending;
                 }
-                PStep::Empty => return Poll::Ready(Some(Ok(Bytes::new()))),
+                PStep::Empty => return Poll::Ready(Some(Ok(SegBytes::default()))),
                 PStep::Chunk(n) => (n.max(1) as u64).min(left).min(MAX_CHUNK),
                 PStep::Rest => left.min(MAX_CHUNK),
             };
-            let mut data = content(this.pos, n as usize);
+            let data = content(this.pos, n as usize);
+            // Split into segments at positions derived from the stream position.
+            let k = this.spec.segments.max(1) as usize;
+            let mut segs: Vec<Vec<u8>> = Vec::new();
+            if k <= 1 || data.len() < 2 {
+                segs.push(data);
+            } else {
+                let mut rest = &data[..];
+                let mut h = crate::util::splitmix64(this.pos ^ 0x5e65);
+                for i in 0..k {
+                    if i == k - 1 || rest.len() <= 1 {
+                        segs.push(rest.to_vec());
+                        break;
+                    }
+                    let cut = 1 + (h as usize % (rest.len() - 1));
+                    h = crate::util::splitmix64(h);
+                    segs.push(rest[..cut].to_vec());
+                    rest = &rest[cut..];
+                }
+            }
             if let Some(f) = this.fault {
                 if f.kind == FaultKind::ExtraByte && f.chunk == this.data_chunks {
-                    data.push(0xEE);
+                    let surplus = vec![0xEEu8; f.extra.max(1) as usize];
+                    if k >= 2 {
+                        segs.push(surplus);
+                    } else {
+                        segs.last_mut().unwrap().extend_from_slice(&surplus);
+                    }
                     this.log.lock().unwrap().faults_reached.push(f);
                 }
             }
             this.pos += n;
             this.data_chunks += 1;
-            return Poll::Ready(Some(Ok(Bytes::from(data))));
+            return Poll::Ready(Some(Ok(SegBytes::from_segments(segs))));
         }
     }
 }
 
 impl http_serve::Entity for ModelEntity {
     type Error = HarnessError;
-    type Data = Bytes;
+    type Data = SegBytes;
 
     fn len(&self) -> u64 {
         self.spec.len
